@@ -73,7 +73,9 @@ def default_suffix(i):
 def _case(draw, tier):
     steps = []
     n = draw(st.integers(3, 10))
-    cats = st.lists(st.sampled_from(["create", "fix", "trim", "update"]), unique=True, max_size=4).map(sorted)
+    from .c05 import flag_sets
+
+    cats = flag_sets()
     steps.append(["add", draw(st.integers(0, 1)), draw(st.integers(0, len(POOL) - 1)), draw(st.integers(0, 4))])
     for _ in range(n):
         k = draw(st.sampled_from(["add", "add", "edit", "remove", "unref", "run", "run", "run"]))
